@@ -8,7 +8,7 @@
    `parse_project m` is Lexer.parse_file run on a fresh DataPack: a fuelled DFS with the
    `_imported` set keyed as the code keys it, load commands buffered and flushed at every
    non-load item; it returns the events (file opened / definition parsed / batch of load
-   commands parsed) in order.  m = Repaired is /repo with fixes/C17-import-key-and-wildcard.patch,
+   commands parsed, with the file of the tokenizer it was parsed with) in order.  m = Repaired is /repo with fixes/C17-import-key-and-wildcard.patch,
    m = Pinned the code before it.
    `flatten` is the specification: the item list of the single file obtained by pasting every
    imported file in place of its first import, files identified by canonical absolute path. *)
@@ -89,17 +89,51 @@ Theorem C17_pinned_partial :
 Proof. exact pinned_partial. Qed.
 Print Assumptions C17_pinned_partial.
 
-(* Non-vacuity: a diamond with a cycle through main, main spelled "sub/../main.jmc". *)
+(* Strengthening round 3 — the FILE of a load batch.  Load statements are buffered and compiled later, in batches, with ONE shared
+   tokenizer (`Lexer.load_tokenizer`: file name, text and lines used for diagnostics, for the source line Debug.watch prints, for the
+   folder JMC.pythonFile resolves against) that `__update_load` switches from file to file.  In the model a buffered statement
+   remembers the file it was read from (`l_file`), the state has the tokenizer's file (`cur`), a batch records the file it was parsed
+   with (`EvBatch tok l`).  For every tree, listing, cwd, spelling of main, fuel and BOTH modes: every batch is parsed with the
+   tokenizer of the file each of its statements was read from, and that file of the tree really contains the statement.
+   (Needs the flush BEFORE an import: `__update_load` with a non-empty buffer breaks it - Proofs/Import.v Inv_set_cur.) *)
+Theorem C17_load_batch_file :
+  forall m t ds cwd mabs mraw fuel evs,
+    parse_project m t ds cwd mabs mraw fuel = Ok evs ->
+    Forall (fun e => match e with
+                     | EvBatch tok l => Forall (fun x => l_file x = tok /\ written_in t x) l
+                     | _ => True
+                     end) evs.
+Proof. exact load_batch_file. Qed.
+Print Assumptions C17_load_batch_file.
+
+(* Hence a FILE-SENSITIVE back end (on_load s f n = statement n compiled with the tokenizer of file f) that consumes the batches with
+   the batch's tokenizer computes exactly what it computes when every statement is compiled with the tokenizer of the file it is
+   written in, in the order of the flattened file (the statements, files erased, are `items_of evs` = `flatten` by C17_import_flatten):
+   the cutting into batches and the switching of the shared tokenizer are not observable. *)
+Theorem C17_file_sensitive_backend :
+  forall (S : Type) (on_def : S -> nat -> S) (on_load : S -> apath -> nat -> S)
+         m t ds cwd mabs mraw fuel evs s,
+    parse_project m t ds cwd mabs mraw fuel = Ok evs ->
+    fconsume S on_def on_load s evs = fold_left (sstep S on_def on_load) (sitems_of evs) s
+    /\ map erase_file (sitems_of evs) = items_of evs
+    /\ Forall (fun i => match i with SLoad f n => written_in t (mkL n f) | SDef _ => True end) (sitems_of evs).
+Proof. exact file_sensitive_backend. Qed.
+Print Assumptions C17_file_sensitive_backend.
+
+(* Non-vacuity: a diamond with a cycle through main, main spelled "sub/../main.jmc"; load statements before, between and after
+   the imports, each batch with the tokenizer of its own file. *)
 Example C17_nonvacuous :
-  let t := [ (["R"; "p"; "main.jmc"], [ILoad 1; IImport false ["a"]; IDef 2; IImport false ["b.jmc"]; ILoad 3]);
-             (["R"; "p"; "a.jmc"],    [IDef 4; IImport false ["sub"; "c"]; ILoad 5]);
-             (["R"; "p"; "b.jmc"],    [ILoad 6; IImport false ["."; "sub"; ".."; "sub"; "c.jmc"]; IDef 7]);
-             (["R"; "p"; "sub"; "c.jmc"], [IImport false [".."; "main"]; ILoad 8; IWild false [".."]]) ]%string in
-  let ds := [ (["R"; "p"], [["R"; "p"; "b.jmc"]; ["R"; "p"; "sub"; "c.jmc"]; ["R"; "p"; "main.jmc"]; ["R"; "p"; "a.jmc"]]) ]%string in
+  let M := ["R"; "p"; "main.jmc"]%string in let A := ["R"; "p"; "a.jmc"]%string in
+  let B := ["R"; "p"; "b.jmc"]%string in let C := ["R"; "p"; "sub"; "c.jmc"]%string in
+  let t := [ (M, [ILoad 1; IImport false ["a"]; IDef 2; IImport false ["b.jmc"]; ILoad 3]);
+             (A, [IDef 4; IImport false ["sub"; "c"]; ILoad 5]);
+             (B, [ILoad 6; IImport false ["."; "sub"; ".."; "sub"; "c.jmc"]; IDef 7]);
+             (C, [IImport false [".."; "main"]; ILoad 8; IWild false [".."]]) ]%string in
+  let ds := [ (["R"; "p"], [B; C; M; A]) ]%string in
   parse_project Repaired t ds ["R"; "p"]%string false ["sub"; ".."; "main.jmc"]%string 6 =
-    Ok [ EvOpen ["R"; "p"; "main.jmc"]; EvBatch [1]; EvOpen ["R"; "p"; "a.jmc"]; EvDef 4;
-         EvOpen ["R"; "p"; "sub"; "c.jmc"]; EvBatch [8]; EvOpen ["R"; "p"; "b.jmc"]; EvBatch [6]; EvDef 7;
-         EvBatch [5]; EvDef 2; EvBatch [3] ]%string
+    Ok [ EvOpen M; EvBatch M [mkL 1 M]; EvOpen A; EvDef 4;
+         EvOpen C; EvBatch C [mkL 8 C]; EvOpen B; EvBatch B [mkL 6 B]; EvDef 7;
+         EvBatch A [mkL 5 A]; EvDef 2; EvBatch M [mkL 3 M] ]
   /\ flatten t ds ["R"; "p"]%string false ["sub"; ".."; "main.jmc"]%string 6 =
     Ok [FLoad 1; FDef 4; FLoad 8; FLoad 6; FDef 7; FLoad 5; FDef 2; FLoad 3].
 Proof. vm_compute. split; reflexivity. Qed.
